@@ -167,6 +167,8 @@ class SimFS:
 
     def stat(self, p):
         import stat as _stat
+        if isinstance(p, str) and "\x00" in p:
+            raise ValueError("embedded null byte")
         p = self.canon(p)
         if p not in self.files and p not in self.dirs and isinstance(p, str) and p.startswith(SIM_ROOT[:-1]) and self.is_sim_dir(p):
             return _real_os.stat_result((_stat.S_IFDIR | 0o755, 1, 1, 1, 0, 0, 4096, 0, 0, 0))
@@ -177,8 +179,8 @@ class SimFS:
         raise FileNotFoundError(errno.ENOENT, "No such file or directory", p)
 
     def exists(self, p):
-        if not isinstance(p, (str, bytes)):
-            return False
+        if not isinstance(p, (str, bytes)) or (isinstance(p, str) and "\x00" in p):
+            return False  # os.path.exists swallows the ValueError
         p = self.canon(p)
         hit = p in self.files or p in self.dirs
         if hit and self.no_collision:
@@ -188,6 +190,12 @@ class SimFS:
         return hit
 
     def open(self, p, mode="r", buffering=-1, encoding=None, errors=None, newline=None, **_kw):
+        if isinstance(p, str):
+            if "\x00" in p:
+                raise ValueError("embedded null byte")  # what the real open() does
+            if len(p) > 4096 or any(len(c.encode("utf-8", "surrogatepass")) > 255 for c in p.split("/")):
+                self.stats["open_error"] += 1
+                raise OSError(errno.ENAMETOOLONG, "File name too long", p[:64] + "...")
         p = self.canon(p)
         self.opens += 1
         self.stats["open"] += 1
